@@ -6,6 +6,14 @@ EXTENDS MsgBuilder, Json
 
 CONSTANTS Scenario,   \* "small": every call, short names + a maximal name, small capacity / limits
                       \* "big":   filler records that put names on both sides of 0x3FFF, 0xBFFF, 0xFFFF
+                      \* "reply": the header written through header_mut(), start_answer /
+                      \*          start_error / request_axfr, OPT records that set an extended RCODE
+                      \* "all":   the calls of "small" and "reply" together (simulation)
+                      \* "edge", "edgewide": after answer() and one filler record the message ends at
+                      \*          one of the offsets around 0x3FFF / 0x4000; then every sequence of
+                      \*          section changes, rewinds, a push limit and pushes of records whose
+                      \*          names share suffixes, so that octets are cut back to exactly these
+                      \*          offsets (failed push, rewind, backward conversion) and written again
           MaxOps,     \* number of calls in a behaviour
           CompSet,    \* compressors explored
           TgtSet      \* target kinds explored: "vec" (also stands for BytesMut), "array", "stream", "sarray"
@@ -47,14 +55,34 @@ ItemOf(c) ==
                         rd |-> << [k |-> "f", n |-> c.n] >>]        \* opaque data, n x 0x80
     [] c.op = "opt" -> [k |-> "r", name |-> <<>>, rtype |-> 41, class |-> 1232, ttl |-> <<0, 0, 128, 0>>,
                         rd |-> << [k |-> "o", o |-> <<0, 10>> \o EncU16(c.n) \o Rep(c.n, 7)] >>]
+    [] c.op = "optrc" -> [k |-> "r", name |-> <<>>, rtype |-> 41, class |-> 1232,
+                        ttl |-> <<c.n \div 16, 0, 128, 0>>,
+                        rd |-> << [k |-> "o", o |-> <<0, 10, 0, 4, 7, 7, 7, 7>>] >>]
 
-Questions == IF Scenario = "small"
+Edge == Scenario \in {"edge", "edgewide"}
+\* the offsets at which the filler record of an edge behaviour ends: the last
+\* offset a pointer can express (0x3FFF), its neighbours, and a little more
+EdgeEnds == IF Scenario = "edge" THEN 16382..16384 ELSE 16380..16386
+\* root owner (1) + type, class, TTL, RDLENGTH (10) after the 12-octet header
+EdgeFillers == {Op("UNK", 5, 0, e - 23) : e \in EdgeEnds}
+
+Small == Scenario \in {"small", "all"}
+Reply == Scenario \in {"reply", "all"}
+
+Questions == IF Small
              THEN {Op("q", a, 0, 0) : a \in {1, 2, 5, 6}}
+             ELSE IF Edge \/ Reply THEN {}
              ELSE {Op("q", 3, 0, 0)}
 Records ==
-  IF Scenario = "small" THEN
+  IF Small THEN
     {Op("A", 1, 0, 1), Op("A", 6, 0, 2), Op("NS", 4, 3, 0), Op("NS", 2, 1, 0),
      Op("MX", 3, 2, 10), Op("DN", 4, 1, 0), Op("NS", 6, 6, 0), Op("TXT", 5, 0, 129)}
+  ELSE IF Reply THEN {Op("A", 1, 0, 1)}
+  ELSE IF Edge THEN
+    {Op("NS", 3, 1, 0),        \* b.a.ex. NS a.ex.
+     Op("A", 1, 0, 1),         \* a.ex.
+     Op("A", 3, 0, 2),         \* b.a.ex.
+     Op("MX", 2, 3, 10)}       \* A.EX. MX b.a.ex.
   ELSE
     {Op("TXT", 4, 0, 16125),   \* ex. TXT, ends at 16151: the next name stays below 0x4000
      Op("UNK", 5, 0, 16357),   \* from 12: ends at 16380, the next name straddles 0x4000
@@ -63,24 +91,50 @@ Records ==
      Op("UNK", 5, 0, 32603),   \* from 32921: ends at 65535 exactly
      Op("UNK", 5, 0, 32604),   \* from 32921: 65536, one too many for a stream target
      Op("NS", 3, 1, 0), Op("A", 3, 0, 1), Op("MX", 2, 3, 10)}
-Opts == IF Scenario = "small" THEN {Op("opt", 0, 0, 4)} ELSE {}
-Gotos == IF Scenario = "small" THEN {Op("goto", 0, 0, s) : s \in 0..4}
+Opts == IF Small THEN {Op("opt", 0, 0, 4)} ELSE {}
+\* OPT records that set an extended RCODE: 3 (header bits only), 19 (BADCOOKIE + 3...: upper bits 1, lower 3)
+OptRcs == IF Reply THEN {Op("optrc", 0, 0, 3), Op("optrc", 0, 0, 19)} ELSE {}
+Gotos == IF Small THEN {Op("goto", 0, 0, s) : s \in 0..4}
+         ELSE IF Reply THEN {Op("goto", 0, 0, 0), Op("goto", 0, 0, 4)}
          ELSE {Op("goto", 0, 0, 2), Op("goto", 0, 0, 3)}
-Limits == IF Scenario = "small" THEN {Op("limit", 0, 0, 60), Op("limit", 0, 0, 300), Op("clear", 0, 0, 0)}
+\* header values: every bit set / a pattern with opcode 2, AA, RD, Z, CD, RCODE 3
+HdrVal(n) == IF n = 1 THEN <<255, 255, 255, 255>> ELSE <<18, 52, 21, 83>>
+Hdrs == IF Reply THEN {Op("hdr", 0, 0, 1), Op("hdr", 0, 0, 2)} ELSE {}
+\* requests: header (ID, opcode 4 + RD + other bits that must not be copied / a plain query) and questions
+RqHdr(b) == IF b = 1 THEN <<171, 205, 167, 143>> ELSE <<0, 7, 0, 0>>
+QItem(a) == [k |-> "q", name |-> Name(a), qtype |-> 1, qclass |-> 1]
+RqQs(b) == IF b = 1 THEN << QItem(1) >> ELSE << QItem(2), QItem(1), QItem(3) >>
+KindOf(a) == CASE a = 1 -> "answer" [] a = 2 -> "error" [] OTHER -> "axfr"
+StartQs(c) == IF c.a = 3 THEN << [k |-> "q", name |-> Name(c.b), qtype |-> 252, qclass |-> 1] >>
+              ELSE RqQs(c.b)
+StartRq(c) == IF c.a = 3 THEN <<0, 0, 0, 0>> ELSE RqHdr(c.b)
+Starts == IF Reply THEN {Op("start", a, b, 5) : a \in 1..2, b \in 1..2} \cup {Op("start", 3, 3, 0)}
+          ELSE {}
+Limits == IF Small THEN {Op("limit", 0, 0, 60), Op("limit", 0, 0, 300), Op("clear", 0, 0, 0)}
+          ELSE IF Reply THEN {Op("limit", 0, 0, 40)}
+          ELSE IF Edge THEN {Op("limit", 0, 0, 16405)}   \* the shortest record fits once more, the others do not
           ELSE {Op("limit", 0, 0, 16400)}
-Others == {Op("rewind", 0, 0, 0), Op("finish", 0, 0, 0)}
-Calls == Questions \cup Records \cup Opts \cup Gotos \cup Limits \cup Others
+Others == IF Edge THEN {Op("rewind", 0, 0, 0)}
+          ELSE {Op("rewind", 0, 0, 0), Op("finish", 0, 0, 0)}
+Calls == Questions \cup Records \cup Opts \cup OptRcs \cup Gotos \cup Hdrs \cup Starts \cup Limits \cup Others
 
 \* "sarray": a stream target over a fixed array with room for 34 octets of message
 CapOf(t) == CASE t = "array" -> 512 [] t = "stream" -> 65535 [] t = "sarray" -> 34 [] OTHER -> Unbounded
 
 --------------------------------------------------------------------------
-Proj == [res |-> res', len |-> buf'.len, cnt |-> HdrCounts(buf'),
-         acc |-> Len(accepted'), shim |-> shim']
+\* (after a start_answer / request_axfr that failed the builder is gone: nothing to observe)
+Proj == IF res' = "gone"
+        THEN [res |-> "gone", len |-> 0, cnt |-> <<0, 0, 0, 0>>, acc |-> 0, shim |-> 0, id |-> 0, fl |-> 0]
+        ELSE [res |-> res', len |-> buf'.len, cnt |-> HdrCounts(buf'),
+              acc |-> Len(accepted'), shim |-> shim',
+              id |-> BU16(buf', 0), fl |-> BU16(buf', 2)]
 
 Step(c) ==
   /\ CASE c.op = "q"      -> PushQuestion(ItemOf(c))
        [] c.op = "opt"    -> PushOpt(ItemOf(c))
+       [] c.op = "optrc"  -> PushOptRcode(ItemOf(c), c.n)
+       [] c.op = "hdr"    -> SetHeader(HdrVal(c.n))
+       [] c.op = "start"  -> StartReply(KindOf(c.a), StartRq(c), c.n, StartQs(c))
        [] c.op = "goto"   -> GotoSection(c.n)
        [] c.op = "rewind" -> Rewind
        [] c.op = "limit"  -> SetLimit(c.n)
@@ -97,14 +151,24 @@ Init == /\ \E c \in CompSet : \E t \in TgtSet : Init0(c, t, CapOf(t))
 \* named so that -coverage reports each call kind
 DoQuestion == \E c \in Questions : Step(c)
 DoRecord   == \E c \in Records : Step(c)
-DoOpt      == \E c \in Opts : Step(c)
+DoFiller   == \E c \in EdgeFillers : Step(c)
+DoOpt      == \E c \in Opts \cup OptRcs : Step(c)
+DoHdr      == \E c \in Hdrs : Step(c)
+DoStart    == \E c \in Starts : Step(c)
 DoGoto     == \E c \in Gotos : Step(c)
 DoRewind   == Step(Op("rewind", 0, 0, 0))
 DoLimit    == \E c \in Limits : Step(c)
-DoFinish   == Step(Op("finish", 0, 0, 0))
+DoFinish   == Op("finish", 0, 0, 0) \in Others /\ Step(Op("finish", 0, 0, 0))
 
+\* (calls that repeat what is in force already only multiply the behaviours)
+EdgeUseful(c) == /\ c.op = "limit" => limit = NoLimit
+                 /\ c.op = "goto" => c.n # section
+\* an edge behaviour opens with answer() and one filler record
 Next == /\ Len(hist) < MaxOps
-        /\ (DoQuestion \/ DoRecord \/ DoOpt \/ DoGoto \/ DoRewind \/ DoLimit \/ DoFinish)
+        /\ IF Edge /\ Len(hist) = 0 THEN Step(Op("goto", 0, 0, 2))
+           ELSE IF Edge /\ Len(hist) = 1 THEN DoFiller
+           ELSE IF Edge THEN \E c \in Calls : EdgeUseful(c) /\ Step(c)
+           ELSE (DoQuestion \/ DoRecord \/ DoOpt \/ DoHdr \/ DoStart \/ DoGoto \/ DoRewind \/ DoLimit \/ DoFinish)
 
 Spec == Init /\ [][Next]_mcvars
 
@@ -124,8 +188,11 @@ NoPointerAfterFailure ==
 --------------------------------------------------------------------------
 (* S->I: one case per maximal behaviour: configuration, calls, and the       *)
 (* specification's projection after every call.                              *)
-PushOps == {"q", "opt", "A", "NS", "MX", "DN", "TXT", "UNK"}
+PushOps == {"q", "opt", "optrc", "A", "NS", "MX", "DN", "TXT", "UNK"}
 CallJson(c) == IF c.op \in PushOps THEN [op |-> c.op, n |-> c.n, item |-> ItemOf(c)]
+               ELSE IF c.op = "hdr" THEN [op |-> c.op, n |-> c.n, h |-> HdrVal(c.n)]
+               ELSE IF c.op = "start" THEN [op |-> c.op, n |-> c.n, kind |-> KindOf(c.a),
+                                            rq |-> StartRq(c), qs |-> StartQs(c)]
                ELSE [op |-> c.op, n |-> c.n]
 Leaf == Len(hist) = MaxOps \/ section = 5
 \* the property speaks about messages up to 65535 octets; a Vec target lets
@@ -138,6 +205,7 @@ Emit ==
                 calls |-> [i \in 1..Len(hist) |-> CallJson(hist[i].c)]],
        exp |-> [steps |-> [i \in 1..Len(hist) |->
                              <<hist[i].p.res, hist[i].p.len, hist[i].p.cnt[1], hist[i].p.cnt[2],
-                               hist[i].p.cnt[3], hist[i].p.cnt[4], hist[i].p.acc, hist[i].p.shim>>],
+                               hist[i].p.cnt[3], hist[i].p.cnt[4], hist[i].p.acc, hist[i].p.shim,
+                               hist[i].p.id, hist[i].p.fl>>],
                 valid |-> ParseBack]]))
 =============================================================================
